@@ -234,7 +234,7 @@ def run(ctx):
     # consumes a file (parse*/open*/read*/load*/list*/from_bytes/from_reader/decompress*) is a root of its own
     R_pub = ctx.rule("C05.public-readers-are-roots", "every pub fn named parse*/open*/read*/load*/list*/from_bytes/from_reader/decompress* is a root of the analysed call graph", floor=300)
     for pth, f_ in cg.fns.items():
-        if f_.d.get("vis") == "pub" and re.match(r"(parse|open|read|load|list|from_bytes|from_reader|decompress)", pth.split("::")[-1]) and "::tests::" not in pth and pth not in roots:
+        if f_.d.get("vis") == "pub" and re.match(r"(parse|open|read|load|list|from_bytes|from_reader|decompress|get_record|record_iterator|iter_records)", pth.split("::")[-1]) and "::tests::" not in pth and pth not in roots:
             roots.append(pth)
             ctx.ok(R_pub, pth) if len(ctx.samples) < 320 else ctx.rules[R_pub].__setitem__("obligations", ctx.rules[R_pub]["obligations"] + 1) or ctx.rules[R_pub].__setitem__("discharged", ctx.rules[R_pub]["discharged"] + 1)
     reach = cg.local_reachable(roots)
@@ -319,6 +319,10 @@ def run(ctx):
                                     # such values cannot leave 64 bits; direct u64 reads keep their own record)
                                     if re.fullmatch(r"[ui](8|16|32)", tn_):
                                         sb[i_] = int(tn_[1:])
+                                    # ... except where the value is known to be a full 64-bit field of the input: a BET entry's bit-packed
+                                    # file position (BetTable::get_file_info) fills whatever width the table header declares, up to 64
+                                    elif tn_ == "u64" and re.match(r"ret get_file_info", whys2[i_] or ""):
+                                        sb[i_] = 64
                             l0 = op_local(t["ops"][0])
                             tn = (f.crate.ty(f.mir["locals"][l0][0]) or "") if l0 is not None else ""
                             ob = {"usize": 64, "isize": 64}.get(tn) or (int(re.sub(r"\D", "", tn)) if re.fullmatch(r"[ui]\d+", tn) else None)
@@ -367,6 +371,14 @@ def run(ctx):
                 for o, w in zip(ops, whys):
                     if w:
                         san = san or ft.sanitised(o, bb, zero_test=(opk == "Sub" and o is ops[0] and mirg.op_int(ops[1]) == 1))
+                # `x - K` with a constant K > 1: an upper bound on x (`if x < 64`) proves nothing — the evidence has to be a *lower* bound
+                # x >= K on the branch taken (K == 1 keeps the zero-test form above)
+                if san and opk == "Sub" and whys[0] and (mirg.op_int(ops[1]) or 0) > 1 and san.startswith("dominating comparison"):
+                    lb_ = ft.lower_bound_at(ops[0], bb)
+                    if lb_ is None or lb_ < mirg.op_int(ops[1]):
+                        san = None
+                    else:
+                        san = "dominating lower bound %d" % lb_
                 if san and opk == "Sub" and mirg.op_int(ops[0]) is None and mirg.op_int(ops[1]) is None and not san.startswith("dominating zero test") and not (san.startswith("derivation passes") and ft.clamped_by(ops[1], ops[0])):
                     # two variable operands: a check on one of them (or on a relative) says nothing about their order —
                     # the evidence must compare the two with each other
@@ -630,6 +642,30 @@ def run(ctx):
                 else:
                     ctx.bad(R_clamp, "L|%s|%s|%s" % (path, tname, re.sub(r"\s+", "", what)[:40]), "%s:%d" % (f.file, ln or 0), "%s lets the index `%s` reach %d; `%s` has %d elements (last index %d)" % (what, P[:40], kmax, tname, N, N - 1),
                             "input that drives the index to the clamp makes the next table lookup panic (index out of bounds) instead of decoding or failing cleanly")
+
+    # M: a decoder's output is drained under a byte budget.  `read_to_end` on a bare stream decoder lets a few hundred bytes of input
+    # expand to gigabytes before the size check that follows can reject them; the drain must go through `Read::take(expected + 1)`
+    # (the form the crate's own decompress_up_to uses) or read into a buffer of the expected size
+    R_bomb = ctx.rule("C05.M-decoder-output-drained-under-a-budget", "every `read_to_end` on a stream decoder (ZlibDecoder / BzDecoder / DeflateDecoder / XzDecoder ..) reachable from a parser entry point is called on a `std::io::Take<..>` of it", floor=1)
+    for path in sorted(reach):
+        f = cg.fns[path]
+        if "::tests::" in path:
+            continue
+        for bb, t in mirg.iter_calls(f):
+            c = mirg.callee(t) or ""
+            if not c.endswith("Read::read_to_end") or not t["a"]:
+                continue
+            l_ = op_local(t["a"][0])
+            ty_ = (f.crate.ty(f.mir["locals"][l_][0]) or "") if l_ is not None else ""
+            if not re.search(r"Decoder<|Decompress", ty_):
+                continue
+            ctx.call_sites += 1
+            inst = {"fn": path, "line": t["ln"], "reader": ty_[:80]}
+            if re.search(r"io::Take<", ty_):
+                ctx.ok(R_bomb, inst)
+            else:
+                ctx.bad(R_bomb, "M|%s|read_to_end" % path, "%s:%d" % (f.file, t["ln"]), "`read_to_end` on `%s`: nothing bounds what the stream expands to" % re.sub(r"^&mut ", "", ty_)[:70],
+                        "a few hundred bytes of input (a run of zeros, bzip2- or zlib-compressed) expand to hundreds of megabytes of heap before the size check behind the call rejects them")
 
     # J: an index guarded by an *inclusive* upper bound (`if i <= n { v[i] }`, `if i > n { return Err } .. v[i]`): the guard admits
     # i == n, one past the end of a container of n elements.  Expected count on a correct tree is zero; instances of the guard
